@@ -61,13 +61,13 @@ CLAIMED = {
    ref="DESIGN.md section 3 E7, section 4 C04"),
  "C05": dict(
    technique="end-agreement rules over access paths, non-empty-guard dominance, call counting, counter discipline, who-may-call and state inventory on go/ssa over queue/*.go and the list primitives used",
-   text="Slice-backed Queue: Enqueue stores append(items, item) exactly once on every path, Dequeue returns items[0] and stores items[1:], Peek reads items[0], all under the non-empty guard; the empty path returns the zero value and an error and writes nothing; Search is a full forward scan; Size is len(items); Clear stores nil; nothing else writes items - with Go's append/re-slice semantics this is FIFO behaviour of the slice-backed queue. Linked LQueue: n incremented exactly once with one Append(item), decremented once with one Shift only where n is known positive, empty path untouched; Peek reads First; positional list primitives never compare element values, observers write nothing; no untracked state (SI1). The delivery order of the linked variant is not decided.",
+   text="Slice-backed Queue: Enqueue stores append(items, item) exactly once on every path, Dequeue returns items[0] and stores items[1:], Peek reads items[0], all under the non-empty guard; the empty path returns the zero value and an error and writes nothing; Search is a full forward scan; Size is len(items); Clear stores nil; nothing else writes items - with Go's append/re-slice semantics this is FIFO behaviour of the slice-backed queue. Linked LQueue: n incremented exactly once with one Append(item), decremented once with one Shift only where n is known positive, empty path untouched; Peek reads First; positional list primitives never compare element values, observers write nothing; no untracked state (SI1). The order in which DList.Append/Shift themselves link nodes is not decided.",
    note="Trusted: go/ssa, Go append/re-slice semantics; locking is C01/C02.",
    ref="DESIGN.md section 3 E7 (AG6, AG4), section 4 C05/C06"),
  "C06": dict(
    technique="end-agreement rules over access paths, non-empty-guard dominance, call counting, counter discipline, who-may-call and state inventory on go/ssa over stack/*.go and the list primitives used",
    text="Slice-backed Stack: Push stores append(items, item) exactly once on every path, Pop returns items[len-1] and stores items[:len-1], Peek reads items[len-1], all under the non-empty guard; the empty path returns the zero value and writes nothing; Search is a full forward scan; Size is len(items); nothing else writes items - with Go's append/re-slice semantics this is LIFO behaviour of the slice-backed stack. Linked LStack: n incremented exactly once with one Append(item), decremented at most once only where n is known positive, with one list Pop; Peek reads Last; positional list primitives never compare element values, observers write nothing; no untracked state (SI1). The value handed back by the linked variant's Pop is not decided.",
-   note="Trusted: go/ssa, Go append/re-slice semantics; locking is C01/C02.",
+   note="Trusted: go/ssa, Go append/re-slice semantics; locking is C01/C02. Known finding: list.(*DList).Pop returns the node before the one it unlinks (pinned Example_linkedList expects that value).",
    ref="DESIGN.md section 3 E7 (AG6, AG4), section 4 C05/C06"),
  "C13": dict(
    technique="canonical-scan recognition (PT5), guard dominance (PT6), strictness/direction of update comparisons, finite order abstraction of comparison-only functions (OD2 decision tables over every order type, dense orders included), piecewise-affine index table with a statically checked premise (BD2, Nth), helper hygiene (GS1/GS2) on go/ssa",
@@ -107,8 +107,8 @@ ADDENDA = {
  "C02": " Also: re-acquisition, balance and escape rules (LK2/LK3/LK5) and AT3.",
  "C03": " Also: who may write, overwrite a slot of, re-sift or hand out h.data (AG1); getIndex returns the index it compared equal; Push returns only after every argument was pushed; Delete refuses only an absent value or an empty heap; the bottom-up pass of FromSlice/Convert starts at or above the last internal node; sift functions are recognised in recursive and loop form.",
  "C04": " Also: delete hands n back only after a recursive delete below it whose verdict it returns; each of the four shapes of the key-holding node (Left/Right nil or not) reaches only its own return and the successor lookup needs a right subtree; Delete's verdict comes from the descent; get in recursive or loop form.",
- "C05": " Also: no element of items is overwritten in place and items is not handed to other functions; the linked list is changed only by the insertion, the removal and Clear (judged by the callee's effect: DList.Each rewrites the head); the linked Search answers what Find found; state inventory over list.DList.",
- "C06": " Also: no element of items is overwritten in place and items is not handed to other functions; the linked list is changed only by the insertion, the removal and Clear (by effect); the linked Search answers what Find found; state inventory over list.DList.",
+ "C05": " Also: no element of items is overwritten in place and items is not handed to other functions; the linked list is changed only by the insertion, the removal and Clear (judged by the callee's effect: DList.Each rewrites the head); the linked Search answers what Find found; state inventory over list.DList. The drained state of the linked queue (rules PH1/PH2; premise decided on the types: list.DList embeds its head node by value, so the list always keeps one node): Enqueue may call list.Append only where n before the increment is known positive (the test of n is evaluated flow-sensitively against the n++ of the same function) and must store the item into the list's own head node where it is zero, exactly one of the two on every path; Peek and Search may consult the list only where n is known positive and answer the zero value / false otherwise. This supersedes 'the delivery order of the linked variant is not decided' for the drain-and-refill and Clear scenarios; the order inside DList.Append/Shift themselves is still not decided.",
+ "C06": " Also: no element of items is overwritten in place and items is not handed to other functions; the linked list is changed only by the insertion, the removal and Clear (by effect); the linked Search answers what Find found; state inventory over list.DList. The drained state of the linked stack (rules PH1/PH2, as for the queue): Push may call list.Append only where n before the increment is known positive and must store the item into the list's own head node where it is zero; Peek and Search consult the list only where n is known positive. RS2: on the path where list.(*DList).Pop unlinks the last node the node handed back must be the one unlinked (a copy of *x.next taken before `x.next = nil`, or that pointer), and on the single-node path a copy of the head. Known finding (not repaired, the pinned Example_linkedList expects it): DList.Pop hands back the node before the one it unlinks.",
  "C07": " Also: a node's key is written only where the node is created and its value there and in Add; thin wrappers (moveFront, addFront, removeLast) are looked through whether or not they exist.",
  "C08": " Also: the store primitive is reached only through Set's liveness test, add and Update (AG1); a rejected store leaves no trace (ER5); predicate closures (maps.DeleteFunc) are decided like the loop they replace.",
  "C09": " Also: completeness of AG2 (a found terminal node is always reported); put's terminal branch stores the caller's value; key/value of a node are written only by put; Keys/StartsWith empty the shared queue before collecting.",
